@@ -16,6 +16,15 @@ def build(exe, rng, i):
         names.append((nm, kind, k))
         if kind == "d": pre.append(f"mkdir 0 0 {hx(nm)}")
         else: pre += [f"open 1 0 0 {hx(nm)} 2", f"write 1 {rng.choice([0, 100, 3000, 40000])} {k + 1}", "close 1"]
+    # a sub-directory with entries of its own: they are undeleted with THAT directory as the parent
+    insub = []
+    if rng.random() < 0.6:
+        pre += [f"mkdir 0 0 {hx(b'sub')}", f"chdir 0 0 {hx(b'sub')}"]
+        for k in range(rng.randint(1, 3)):
+            nm = b"s%d" % k + bytes(rng.choice(range(0x61, 0x7b)) for _ in range(rng.choice([1, 8])))
+            insub.append(nm)
+            pre += [f"open 1 0 0 {hx(nm)} 2", f"write 1 {rng.choice([10, 2000])} {k + 7}", "close 1"]
+        pre.append("toroot 0 0")
     pre += ["free 0 0", "list 0 0 1"]
     rc, cb, err = vlib.run_c(exe, pre)
     if rc != 0: return None
@@ -31,6 +40,12 @@ def build(exe, rng, i):
     order = list(victims); rng.shuffle(order)
     for nm, kind, k in order:
         if nm in sect: ops.append(f"undel 0 0 {root} {sect[nm]}")
+    if insub and b"sub" in sect:
+        ops.append(f"chdir 0 0 {hx(b'sub')}")
+        for nm in insub: ops.append(f"remove 0 0 {hx(nm)}")
+        ops.append("toroot 0 0")
+        for nm in reversed(insub):
+            if nm in sect: ops.append(f"undel 0 0 {sect[b'sub']} {sect[nm]}")
     ops += ["free 0 0", "list 0 0 1"]
     for nm, kind, k in names:
         if kind == "f": ops += [f"open 2 0 0 {hx(nm)} 1", "read 2 100000", "close 2"]
